@@ -36,8 +36,8 @@ MUTANTS = [
      "        mask = np.bitwise_not(np.all(np.isfinite(theta_phi)))", "C09-R3"),
     ("depth clamp written with max instead of min", "AegeanTools/regions.py",
      "        if depth is None or depth > self.maxdepth:\n"
-     "            depth = self.maxdepth\n\n        try:",
-     "        depth = self.maxdepth if depth is None else max(depth, self.maxdepth)\n\n        try:",
+     "            depth = self.maxdepth\n        try:",
+     "        depth = self.maxdepth if depth is None else max(depth, self.maxdepth)\n        try:",
      "C09-R9"),
     ("huge discs queried and stored at a coarser level",
      "AegeanTools/regions.py",
